@@ -85,6 +85,7 @@ def run_l2(prop, tier, out, workdir):
     """The real `bita clone` process on natural-chunk files arranged by TLC-generated layouts (lib/clone_l2.py), judged by CloneL2Trace.tla."""
     import sys
     build_cli()
+    ensure_fi()
     total = 0
     samples = []
     counts = {}
